@@ -88,17 +88,27 @@ pub proof fn lemma_be_val_update(s: Seq<u8>, k: int, v: u8)
 {
     let n = s.len() as int;
     let u = s.update(k, v);
+    let d = v as int - s[k] as int;
+    assert(be_val(u) as int == be_val(u.drop_last()) as int * 256 + u.last() as int);
+    assert(be_val(s) as int == be_val(s.drop_last()) as int * 256 + s.last() as int);
     if k == n - 1 {
         assert(u.drop_last() =~= s.drop_last());
         assert(pow256(0) == 1);
+        assert((s.len() - 1 - k) as nat == 0);
+        assert(d * (pow256(0) as int) == d) by (nonlinear_arith) requires pow256(0) == 1;
+        assert(u.last() == v);
     } else {
         assert(u.drop_last() =~= s.drop_last().update(k, v));
         assert(u.last() == s.last());
         lemma_be_val_update(s.drop_last(), k, v);
         let e = (n - 2 - k) as nat;
-        assert(pow256((n - 1 - k) as nat) == 256 * pow256(e));
-        let d = v as int - s[k] as int;
-        assert((be_val(s.drop_last()) as int + d * pow256(e) as int) * 256 == be_val(s.drop_last()) as int * 256 + d * (256 * pow256(e)) as int) by (nonlinear_arith);
+        assert((s.drop_last().len() - 1 - k) as nat == e);
+        assert((s.len() - 1 - k) as nat == e + 1);
+        assert(pow256(e + 1) == 256 * pow256(e));
+        let p = pow256(e) as int; let b0 = be_val(s.drop_last()) as int;
+        assert(be_val(u.drop_last()) as int == b0 + d * p);
+        assert((b0 + d * p) * 256 == b0 * 256 + d * (256 * p)) by (nonlinear_arith);
+        assert(pow256(e + 1) as int == 256 * p);
     }
 }
 pub proof fn lemma_be_val_bound(s: Seq<u8>) ensures be_val(s) < pow256(s.len()) decreases s.len()
